@@ -24,7 +24,7 @@ type C01Plan struct {
 	Delivery seam.Delivery `json:"delivery"`
 	Reads    lib.ReadSched `json:"reads"`
 	Warm     int           `json:"warm,omitempty"`     // the identity objects first decrypt this many OTHER files to the same recipients (long-lived objects)
-	SameObj  bool          `json:"same_obj,omitempty"` // a key listed more than once is listed as the SAME recipient value each time (recipients []age.Recipient{r, x, r})
+	SameObj  bool          `json:"same_obj,omitempty"` // a key listed more than once is listed as the SAME recipient value each time (recipients []age.Recipient{r, x, r}); one identity value per key serves every identity list of the case
 	Via      int           `json:"via,omitempty"`      // 0: keys through the constructors; 1..3: through the text parsers (key files with comments / CRLF / no final newline, authorized_keys lines, PEM)
 }
 
@@ -280,12 +280,24 @@ func (e C01) Execute(plan interface{}, c *core.Ctx) (verdict *core.Verdict) {
 	if len(P) > 65536 {
 		c.Stats.Inc("probe.multi_chunk")
 	}
+	idObjs := map[string]age.Identity{}
 	for i, k := range keys {
 		var trace []string
 		var ids []age.Identity
 		var want []string
 		add := func(kk world.Key, name string) {
-			ids = append(ids, &world.LoggingIdentity{Inner: world.IdentityVia(kk, p.Via), Name: name, Trace: &trace})
+			var inner age.Identity
+			if p.SameObj {
+				// one identity value per key for the whole case: it sits at several positions of several lists
+				id := fmt.Sprintf("%s/%d", kk.String(), kk.WF)
+				if idObjs[id] == nil {
+					idObjs[id] = world.IdentityVia(kk, p.Via)
+				}
+				inner = idObjs[id]
+			} else {
+				inner = world.IdentityVia(kk, p.Via)
+			}
+			ids = append(ids, &world.LoggingIdentity{Inner: inner, Name: name, Trace: &trace})
 		}
 		var before, after []world.Key
 		if i < len(p.Before) {
